@@ -22,7 +22,8 @@ CLAIMS = {
     'C02': dict(
         text="Theorems c02_rows_sound, c02_rows_complete (set of rows = projections of satisfying assignments) and c02_rows_nodup "
              "(no row twice when all variables are selected; pairwise-incompatible outputs by induction) for arbitrary World, any "
-             "number of variables, self-joins, conditions over variable subsets. Counter-witness c02_empty_domain_witness for the "
+             "number of variables, self-joins, conditions over variable subsets; c02_empty_domain_no_rows (an empty domain of a "
+             "selected variable empties the answer, whatever the condition). Counter-witness c02_empty_domain_witness for the "
              "excluded point (known finding C02-F1). At the STATEFUL layer (L2 machine: the evaluator with its duplicate-tracking "
              "sets, result cache disabled): c02_l2_all_selected / c02_l2_nodup - when every variable of the condition is selected, "
              "each of any number of consecutive evaluations of the query object returns exactly the L1 rows, in order (the "
